@@ -293,6 +293,20 @@ func c11HTTP(c *fw.Ctx) {
 			if !ok {
 				c.Report("subscription-without-ev-not-rejected/"+ch.Format, fmt.Sprintf("%s %s: ev=true answered with status %d and body %q instead of an entry with a non-zero status", e.name, pk, m.Status, trunc(m.Body, 80)), cas)
 			}
+			// other spellings of a truthy flag must not slip past the permission check either
+			for _, sp := range []string{`1`, `1.0`, `"1"`, `"true"`, `"yes"`, `[true]`} {
+				c.Eval(1)
+				m2, _, err := put(fmt.Sprintf(`{"characteristics":[{%s,"ev":%s}]}`, id, sp))
+				if err != nil {
+					c.Infra("PUT ev failed: " + err.Error())
+					return
+				}
+				es, perr := c09ParseEntries(m2.Body)
+				if !(perr == nil && len(es) == 1 && es[0].Status != nil && *es[0].Status != 0) {
+					c.Report("subscription-without-ev-not-rejected/spelling/"+ch.Format, fmt.Sprintf("%s %s: \"ev\":%s answered with status %d and no error status", e.name, pk, sp, m2.Status), cas)
+					break
+				}
+			}
 			// value + ev in one entry: the value part follows the write permission, the ev part is rejected
 			nv2, js2 := change(ch, i+1)
 			before = ch.Value
